@@ -13,6 +13,20 @@ try:
         r = subprocess.run(["g++", "-std=c++20", fl, src, "-o", os.path.join(d, "t"), "-pthread"], capture_output=True, text=True)
         if r.returncode != 0 or subprocess.run([os.path.join(d, "t")]).returncode != 0:
             print("toolchain check failed for", fl, r.stderr[-500:]); ok = False
+    # self-test of the simulator core (scheduler, futex seam, determinism of one small multi-threaded program)
+    V = os.path.dirname(os.path.dirname(os.path.abspath(__file__)))
+    exe = os.path.join(d, "selftest")
+    r = subprocess.run(["g++", "-std=c++20", "-O1", "-g", os.path.join(V, "tools", "selftest_futex.cpp"), os.path.join(V, "sim", "detsim.cpp"), os.path.join(V, "sim", "dirsim.cpp"),
+                        "-I" + os.path.join(V, "tools"), "-o", exe, "-ldl", "-pthread", "-rdynamic"], capture_output=True, text=True)
+    if r.returncode != 0:
+        print("simulator self-test does not build:", r.stderr[-800:]); ok = False
+    else:
+        a = subprocess.run([exe], capture_output=True, text=True)
+        b = subprocess.run([exe], capture_output=True, text=True)
+        if a.returncode != 0 or not a.stdout.startswith("ok ") or a.stdout != b.stdout:
+            print("simulator self-test failed:", a.stdout[-300:], b.stdout[-300:]); ok = False
+        else:
+            print("simulator self-test:", a.stdout.strip())
 finally:
     shutil.rmtree(d, ignore_errors=True)
 os.makedirs(os.path.join(os.path.dirname(os.path.dirname(os.path.abspath(__file__))), "build"), exist_ok=True)
